@@ -162,8 +162,24 @@ func init() {
 		// fresh one (a fresh stack holds different bytes next to the header)
 		r2 := strCmpUptoOn(false, string(pa), b)
 		r3 := strCmpUptoOn(true, string(pa), b)
+		// the two arguments may share memory (a caller comparing a bit string with a prefix of its own bytes): the
+		// answer is a function of the contents only
+		alias := ""
+		if len(pa) > 0 && len(pa) <= len(b) && string(b[:len(pa)]) == string(pa) {
+			if x := bitstr.CmpUpto(b[:len(pa)], b); x != r1 {
+				alias = fmt.Sprintf("(a-is-a-view-of-b:%d)", x)
+			}
+		}
+		if len(b) > 0 && len(b) <= len(pa) && string(pa[:len(b)]) == string(b) {
+			if x := bitstr.CmpUpto(pa, pa[:len(b):len(b)]); x != r1 {
+				alias = fmt.Sprintf("(b-is-a-view-of-a:%d)", x)
+			}
+		}
 		if string(b) != string(bcopy) || string(pa) != string(acopy) {
 			return "INPUT-MODIFIED"
+		}
+		if alias != "" {
+			return fmt.Sprintf("%d%s,%s", r1, alias, r2)
 		}
 		if r3 != r2 {
 			return fmt.Sprintf("%d,%s(other-stack-contents:%s)", r1, r2, r3)
